@@ -617,7 +617,7 @@ def unit_kani(u, tier):
               "clause": h.get("claim", ""), "level": h.get("level", "B"), "bound": h.get("bound"),
               "checks_total": p["checks_total"], "covers": [p["covers_sat"], p["covers_total"]],
               "solver_s": p["time"], "wall_s": round(p["wall"], 1), "cmd": p["cmd"], "stubs": p["stubs"], "detail": [],
-              "props": h.get("props")}
+              "props": h.get("props"), "modes": h.get("modes")}
         if p["timeout"]:
             ob["status"] = "undecided"; ob["detail"].append({"kind": "timeout", "msg": f"timeout after {h.get('timeout', 300)}s"})
         elif p["verdict"] is None:
@@ -763,7 +763,7 @@ def check(prop, tier):
                 if r["status"] != "undecided":
                     undecided.append((ob["id"], "undecided"))
             elif ob["status"] == "failed":
-                if not obligation_relevant(ob, mode):
+                if not obligation_relevant(ob, (ob.get("modes") or {}).get(prop, mode)):
                     continue
                 failed_obs.append(ob)
                 mf = [f for f in findings if finding_matches(f, prop, ob)]
